@@ -44,6 +44,9 @@ pub trait Acc: Clone + Debug + Send + Sync + 'static {
     fn queries(&self) -> Vec<String>;
     /// invariant of one register against its model (delivery order)
     fn check(&self, model: &[Obs], case: &dyn Fn() -> Value, s: &mut Sink);
+    /// the type's one-shot `ci(confidence, data)` entry point on the same observations
+    /// must agree with the batch register (default: the type has no such entry point)
+    fn check_oneshot(_model: &[Obs], _case: &dyn Fn() -> Value, _s: &mut Sink) {}
 }
 
 fn bits(x: f64) -> String {
@@ -199,6 +202,18 @@ macro_rules! mean_acc {
                 let mean_t = if xs.is_empty() { None } else { Some(back(self.sample_mean() as f64)) };
                 check_mean_like::<$f>(Self::NAME, self.sample_count(), mean_t, &|k, l| self.ci_mean(conf(k, l)), &|k, l| batch.ci_mean(conf(k, l)), &tv, &back, case, s);
             }
+            fn check_oneshot(model: &[Obs], case: &dyn Fn() -> Value, s: &mut Sink) {
+                let fwd: fn($f) -> $f = $fwd;
+                let back: fn(f64) -> f64 = $back;
+                let xs: Vec<$f> = vals(model).iter().map(|&x| x as $f).collect();
+                let tv: Vec<f64> = xs.iter().map(|&x| fwd(x) as f64).collect();
+                let mut sorted = xs.clone();
+                sorted.sort_by(|a, b| a.partial_cmp(b).unwrap());
+                let batch = <$ty<$f> as StatisticsOps<$f>>::from_iter(&sorted).unwrap();
+                check_mean_like::<$f>(&format!("{}::ci(one-shot)", Self::NAME), xs.len(), None, &|k, l| <$ty<$f>>::ci(conf(k, l), &xs), &|k, l| batch.ci_mean(conf(k, l)), &tv, &back, case, s);
+                check_mean_like::<$f>(&format!("{}::ci(StatisticsOps)", Self::NAME), xs.len(), None, &|k, l| <$ty<$f> as StatisticsOps<$f>>::ci(conf(k, l), &xs), &|k, l| batch.ci_mean(conf(k, l)), &tv, &back, case, s);
+                check_mean_like::<$f>(&format!("{}::ci(MeanCI)", Self::NAME), xs.len(), None, &|k, l| <$ty<$f> as stats_ci::MeanCI<$f>>::ci(conf(k, l), &xs), &|k, l| batch.ci_mean(conf(k, l)), &tv, &back, case, s);
+            }
         }
     };
 }
@@ -269,6 +284,15 @@ macro_rules! paired_acc {
                 let batch = if sorted.is_empty() { Arithmetic::<$f>::new() } else { <Arithmetic<$f> as StatisticsOps<$f>>::from_iter(&sorted).unwrap() };
                 let mean_t = if d.is_empty() { None } else { Some(self.sample_mean() as f64) };
                 check_mean_like::<$f>(Self::NAME, self.sample_count(), mean_t, &|k, l| self.ci_mean(conf(k, l)), &|k, l| batch.ci_mean(conf(k, l)), &tv, &|x| x, case, s);
+            }
+            fn check_oneshot(model: &[Obs], case: &dyn Fn() -> Value, s: &mut Sink) {
+                let (a, b): (Vec<$f>, Vec<$f>) = model.iter().filter_map(|o| if let Obs::P(x, y) = o { Some((*x as $f, *y as $f)) } else { None }).unzip();
+                let d: Vec<$f> = a.iter().zip(&b).map(|(x, y)| *x - *y).collect();
+                let tv: Vec<f64> = d.iter().map(|&x| x as f64).collect();
+                let mut sorted = d.clone();
+                sorted.sort_by(|p, q| p.partial_cmp(q).unwrap());
+                let batch = <Arithmetic<$f> as StatisticsOps<$f>>::from_iter(&sorted).unwrap();
+                check_mean_like::<$f>(&format!("{}::ci(one-shot)", Self::NAME), d.len(), None, &|k, l| Paired::<$f>::ci(conf(k, l), &a, &b), &|k, l| batch.ci_mean(conf(k, l)), &tv, &|x| x, case, s);
             }
         }
     };
